@@ -170,6 +170,26 @@ def clone_fns(fx):
     return out
 
 
+def clone_api(fx):
+    """libfs's exported functions from which an ioctl(FICLONE) is reachable: a call of one of them is a clone
+    request, whatever private helpers issue the ioctl."""
+    import views
+    direct = clone_fns(fx)
+    out = {}
+    for g in ro.fns_in_scope(fx, crates=("libfs",)):
+        if g.is_closure or not (g.raw.get("exported") or g.raw.get("reachable")):
+            continue
+        if g.path in direct:
+            out[g.path] = views.view(fx, g.path, depth=4)
+            continue
+        r = q.callgraph(fx).reach(g.path)
+        if any(d in r for d in direct):
+            out[g.path] = views.view(fx, g.path, depth=4)
+    # an exported function that merely wraps another clone function is not the primitive request
+    inner = set(p_ for p_ in out if any(p_ in q.callgraph(fx).reach(o_) for o_ in out if o_ != p_))
+    return {p_: v for p_, v in out.items() if p_ in inner or not inner} if inner else out
+
+
 def _mode_local(fn, l, adt, field, depth=0):
     """Is local l a copy of <place>.field (e.g. `let mode = self.config.reflink`)?"""
     if depth > 4:
@@ -251,9 +271,10 @@ def c15(ctx):
     import views
     fx = ctx.fx("A")
     obs = []
-    cl = clone_fns(fx)
+    direct = clone_fns(fx)
+    cl = clone_api(fx)
     n = 0
-    for p_, sites in sorted(cl.items()):
+    for p_, sites in sorted(direct.items()):
         for bi, t in sites:
             ok = fx.fns[p_].crate == "libfs"
             obs.append(Ob("R-WHO", mkkey("R-WHO", "libfs", "ioctl(FICLONE)", n), ok, q.loc_of(t), p_,
@@ -261,7 +282,13 @@ def c15(ctx):
             n += 1
     if n == 0:
         obs.append(anchor_ob("R-WHO", "no ioctl(FICLONE) found"))
-    modefn = views.reflink_mode_fn(fx)
+    # the mode function: branches on Config.reflink, answers with a bool, and a clone request is reachable from it
+    # (the outermost such function if helpers share the work)
+    cg = q.callgraph(fx)
+    cands = [p_ for p_ in views._mode_fns(fx, "reflink") if fx.fns[p_].crate == "libxcp" and views._returns_bool(fx.fns[p_])
+             and any(c_ in cg.reach(p_) for c_ in cl)]
+    outer = [p_ for p_ in cands if not any(p_ in cg.reach(o_) for o_ in cands if o_ != p_)]
+    modefn = (outer or cands or [views.reflink_mode_fn(fx)])[0]
     f = views.view(fx, modefn, depth=6) if modefn else None
     if f is None:
         obs.append(anchor_ob("R-TABLE", "a libxcp function that branches on Config.reflink"))
@@ -331,10 +358,10 @@ def c15(ctx):
                               "reflink=auto and the clone did not happen: a non-failing return exists: %s" % ok,
                               None if ok else dict(start="bb%d" % v)))
     # the clone function asks the kernel on every call
-    for c, sites in sorted(cl.items()):
-        g0 = fx.fns[c]
+    import p_role as _pr
+    for c, g0 in sorted(cl.items()):
         cfg0 = cfg_of(g0)
-        io = [b_ for b_, t_ in sites]
+        io = [b_ for b_, t_ in q.calls_to(g0, IOCTL) if _pr._is_ficlone(g0, t_)]
         r = cfg0.reach([0], blocked=set(io))
         leak = [b_ for b_ in cfg0.returns if b_ in r]
         obs.append(Ob("R-ORDER", mkkey("R-ORDER", "clone-fn", IOCTL, 0, "always-asks-kernel"), not leak, g0.loc(), c,
@@ -377,10 +404,7 @@ def c15(ctx):
                       None if not perf else dict(sites=[q.loc_of(t) for b_, t, h in perf])))
     # errno table of the clone ioctl: evaluated on the clone function's inlined view (the mapping may be a helper)
     for c in sorted(cl):
-        g = views.view(fx, c, depth=4, extra_stop=())
-        # libfs exported functions are in the stop set: inline the clone function's own private helpers only
-        g = __import__("thread").threaded(__import__("inline").inlined(fx, fx.fns[c], 4, stop=tuple(
-            sorted(p2 for p2 in views.stop_set(fx) if p2 != c))))
+        g = cl[c]
         cfgg = cfg_of(g)
         sigg = r_err.signal_blocks(g)
         found = set()
@@ -484,10 +508,20 @@ def filetype_table(fx):
 
 
 def mknod_provenance(fx):
+    import views
     obs = []
     n = 0
-    for f in ro.fns_in_scope(fx, crates=("libfs",)):
+    hosts = []
+    for g in ro.fns_in_scope(fx, crates=("libfs",)):
+        if (g.raw.get("exported") or g.raw.get("reachable")) and not g.is_closure and ro.performers(fx, g, MKNODAT):
+            hosts.append(views.view(fx, g.path, depth=4))
+    seen_sites = set()
+    for f in hosts:
         for bi, t in q.calls_to(f, MKNODAT):
+            sid = views.site(f, bi)
+            if sid in seen_sites:
+                continue
+            seen_sites.add(sid)
             n += 1
             c4, a4, f4 = q.arg_origin_calls(f, t, 4)
             ok = "std::os::unix::fs::MetadataExt::rdev" in c4 and "std::os::unix::fs::MetadataExt::dev" not in c4
